@@ -29,6 +29,10 @@ type Case struct {
 	Docs   []string     `json:"docs,omitempty"`
 	Sim    simrt.Config `json:"sim"`
 	Today  string       `json:"today,omitempty"`
+	// GoMaxProcs > 0: runtime.GOMAXPROCS is set to this value for the case
+	// (scheduling is decided by the simulator whatever it is, but code can
+	// read it as a configuration value).
+	GoMaxProcs int `json:"gomaxprocs,omitempty"`
 
 	Compare *CompareCfg `json:"compare,omitempty"`
 	Publish *PublishCfg `json:"publish,omitempty"`
@@ -112,6 +116,7 @@ func (r *CaseResult) absorb(res *simrt.Result) {
 	r.count("sched.infeasible", res.Infeasible)
 	r.count("map.permuted", res.MapPermuted)
 	r.count("map.unlabelled", res.MapUnlabelled)
+	r.count("knob.chan_cap_small", res.ChanCapsSmall)
 	r.count("goroutines", res.Tasks)
 	r.count("points", res.Points)
 	r.count("leaked_goroutines", int64(len(res.Leaked)))
@@ -224,6 +229,10 @@ func GenSim(r *rand.Rand) simrt.Config {
 	}
 	c.MapOrder = pick(r, []string{"identity", "reverse", "shuffle", "shuffle"})
 	c.MapSeed = r.Uint64()
+	if r.IntN(3) == 0 {
+		c.ChanCaps = "small"
+		c.ChanSeed = r.Uint64()
+	}
 	return c
 }
 
